@@ -25,7 +25,7 @@ from .spec import V
 INT = "pygradflow.integration."
 
 
-@unit("C01.IntegrationSolver.gate", ["C01"], [INT + "integration_solver.IntegrationSolver.create_filter", INT + "restricted_flow.RestrictedFlow.rhs", INT + "restricted_flow.RestrictedFlow.residuum", INT + "flow.Flow.aug_lag_deriv_x", INT + "flow.Flow.neg_aug_lag_deriv_x", INT + "flow.Flow.split_states", "pygradflow.iterate.Iterate.bounds_dual"], config={"max_paths": 200})
+@unit("C01.IntegrationSolver.gate", ["C01"], [INT + "integration_solver.IntegrationSolver.create_filter", INT + "restricted_flow.RestrictedFlow.rhs", INT + "restricted_flow.RestrictedFlow.residuum", INT + "flow.Flow.aug_lag_deriv_x", INT + "flow.Flow.neg_aug_lag_deriv_x", INT + "flow.Flow.split_states", "pygradflow.iterate.Iterate.bounds_dual"], config={"max_paths": 200, "timeout_ms": 120000})
 def integration_gate(u):
     params = mk_params(u)
     problem = mk_problem(u)
